@@ -141,7 +141,12 @@ fn add_str(c: &mut Command, s: &str, salt: usize) -> Result<(), CommandError> {
 fn add(c: &mut Command, a: &Arg) -> Result<(), CommandError> {
     match a {
         Arg::S(s) => add_str(c, s.as_str(), 0),
-        Arg::R(r) => c.add_argument(Raw(r.clone())),
+        // a renderer that writes its bytes verbatim: the harness's own `Raw`, or — when the bytes
+        // are UTF-8 — `mpd_client`'s hand-built catch-all tag, which renders its name verbatim too
+        Arg::R(r) => match std::str::from_utf8(r) {
+            Ok(t) if r.len() % 2 == 1 => c.add_argument(mpd_client::tag::Tag::Other(t.to_string().into_boxed_str())),
+            _ => c.add_argument(Raw(r.clone())),
+        },
     }
 }
 
